@@ -16,6 +16,20 @@ mod ffi {
     pub struct Alpha(pub u8);
     #[diplomat::opaque]
     pub struct Beta(pub u8);
+    // type names that differ only in case (header guards, file names and forward declarations must keep them apart)
+    #[diplomat::opaque]
+    pub struct Rgb(pub u8);
+    #[diplomat::opaque]
+    #[allow(clippy::upper_case_acronyms)]
+    pub struct RGB(pub u8);
+    pub struct BothCases<'a> { pub lower: &'a Rgb, pub upper: &'a RGB }
+    impl Rgb {
+        pub fn widen(&self) -> Box<RGB> { Box::new(RGB(self.0)) }
+        pub fn both<'a>(&'a self, other: &'a RGB) -> BothCases<'a> { BothCases { lower: self, upper: other } }
+    }
+    impl RGB {
+        pub fn narrow(&self) -> Box<Rgb> { Box::new(Rgb(self.0)) }
+    }
     pub struct Pair { pub a: i32, pub inner: Leaf }
     pub struct Leaf { pub x: u8, pub y: f64 }
     #[diplomat::out]
@@ -180,6 +194,17 @@ def keyword_bridge(ctx, d, goals, violate):
     src = ["#[diplomat::bridge]", "mod ffi {", "    #[diplomat::opaque]", "    pub struct Kw(pub u8);", "    impl Kw {"]
     for i, ps in enumerate(methods):
         src.append(f"        pub fn m{i}(&self, " + ", ".join(f"{n}: i32" for n in ps) + ") -> i32 { 0 }")
+    src += ["    }"]
+    # methods *renamed* to keywords (a rename target is a string, so every word of the tables can be tried): the backend must escape the
+    # name it ends up with, i.e. after the rename has been applied
+    cppw = sorted(set(T["c_keywords"]) | set(T["cpp_extra_keywords"]))
+    jsw = [w for w in T["js_reserved"] if re.fullmatch(r"[a-z]+", w)]
+    renamed = []
+    src += ["    #[diplomat::opaque]", "    pub struct Rn(pub u8);", "    impl Rn {"]
+    for i, w in enumerate(cppw):
+        j = jsw[i % len(jsw)]
+        renamed.append((w, j))
+        src += [f'        #[diplomat::attr(cpp, rename = "{w}")]', f'        #[diplomat::attr(js, rename = "{j}")]', f"        pub fn r{i}(&self) -> i32 {{ {i} }}"]
     src += ["    }", "}"]
     path = os.path.join(d, "keywords_all.rs")
     open(path, "w").write("\n".join(src) + "\n")
@@ -211,6 +236,20 @@ def keyword_bridge(ctx, d, goals, violate):
                     continue                                    # heck's case conversion is not modelled: only its fixed points are compared
                 goals.append(f'agree_ident {table} "{n}" "{g}"')
                 stats["compared"] += 1
+        if backend in ("cpp", "js"):
+            rfile = "Rn.d.hpp" if backend == "cpp" else "Rn.mjs"
+            rtext = open(os.path.join(out, rfile)).read()
+            got = re.findall(r"inline int32_t (\w+)\(\) const;", rtext) if backend == "cpp" else re.findall(r"\n\s+(\w+)\(\)\s*\{", rtext)
+            if len(got) != len(renamed):
+                violate(f"direct:keywords:{backend}", {"what": f"{rfile}: {len(got)} methods found for {len(renamed)} methods renamed to keywords", "found": got[:20]})
+            else:
+                for (w, j), g in zip(renamed, got):
+                    goals.append(f'agree_ident {table} "{w if backend == "cpp" else j}" "{g}"')
+                    stats["compared"] += 1
+            r2 = sh(["node", "--check", os.path.join(out, rfile)], timeout=120) if backend == "js" else e2e.syntax_only(os.path.join(out, "Rn.hpp"), [out], std, cxx=True)
+            if r2.returncode != 0:
+                violate(f"direct:keywords:{backend}", {"what": f"{rfile} of a bridge whose methods are renamed to keywords does not compile / parse",
+                                                       "compiler": (r2.stderr or r2.stdout)[-1200:]})
         if backend == "js":
             r = sh(["node", "--check", os.path.join(out, file)], timeout=120)
         else:
